@@ -120,6 +120,11 @@ func mailbox.OpenMessage(path) (m, err)
 # GetOutbound: every message that is returned went through the removal of the
 # three mailbox-private headers in the same loop iteration
 ghost var gStrip1 *fbb.Message
+ghost var gP2PFlag string
+ghost var gOnly bool
+ghost var gOnlyMsg *fbb.Message
+ghost var gFlagAt int
+ghost var gAppendedAt int
 ghost var gStrip2 *fbb.Message
 ghost var gStrip3 *fbb.Message
 
@@ -134,4 +139,21 @@ func mailbox.(*DirHandler).GetOutbound(h, fws) (out)
   call fbb.(Header).Del#2 set gStrip3 := m
   at append requires stripped: len($1) == 1 && $1[0] == m && gStrip1 == m && gStrip2 == m && gStrip3 == m
   at append requires not-deferred: !haskey(h.deferred, fbb.(*Message).MID(m)) || !h.deferred[fbb.(*Message).MID(m)]
+  # eligibility: the P2P-only flag is read before the private headers are removed; for a CMS
+  # (no forwarders announced) every message that is neither deferred nor P2P-only is returned
+  # and no other; for a P2P peer only messages whose sole receiver is an announced forwarder
+  call fbb.(Header).Get#0 requires p2p-flag: $1 == "X-P2POnly"
+  call fbb.(Header).Get#0 set gP2PFlag := $r0
+  call fbb.(Header).Get#0 set gFlagAt := $idx + 1
+  call fbb.(Header).Del#0 requires flag-read-first: gFlagAt == $idx + 1
+  call fbb.(*Message).IsOnlyReceiver requires announced-forwarder: $0 == m && same($1.Addr, fw.Addr) && same($1.Proto, fw.Proto)
+  call fbb.(*Message).IsOnlyReceiver set gOnly := $r0
+  call fbb.(*Message).IsOnlyReceiver set gOnlyMsg := $0
+  at append#0 requires p2p-eligible: len(fws) > 0 && gOnly && gOnlyMsg == m
+  at append#1 requires cms-eligible: len(fws) == 0 && gFlagAt == $idx + 1 && !streq(gP2PFlag, "true")
+  at append set gAppendedAt := $idx + 1
+  loop 0 invariant cms-complete: len(fws) == 0 && $idx >= 0 && gFlagAt == $idx + 1 && !streq(gP2PFlag, "true") ==> gAppendedAt == $idx + 1
+  loop 0 invariant skip-only-deferred: $idx >= 0 && gFlagAt != $idx + 1 ==> h.deferred[fbb.(*Message).MID(all[$idx])]
+  loop 0 invariant positions: gFlagAt <= $idx + 1 && gAppendedAt <= $idx + 1
+  loop 1 invariant no-append-yet: gAppendedAt == entry(gAppendedAt)
 @*/
